@@ -23,13 +23,22 @@ def cname(x):
     return x.__name__ if isinstance(x, type) else (type(x).__name__ if x is not None else None)
 
 
+HELD = []      # the results as the caller received them, read again after all the later calls
+
+
+def render(ps, ins, outs):
+    return {"parties": [p.name for p in ps],
+            "inputs": [[i.name, i.party.name, cname(getattr(i, "_type", None))] for i in ins],
+            "outputs": [[o.name, o.party.name, cname(o.value)] for o in outs]}
+
+
 def run_one(src):
     signal.alarm(10)
     try:
         ps, ins, outs = signature(src)
-        return {"sig": {"parties": [p.name for p in ps],
-                        "inputs": [[i.name, i.party.name, cname(getattr(i, "_type", None))] for i in ins],
-                        "outputs": [[o.name, o.party.name, cname(o.value)] for o in outs]}}
+        rec = {"sig": render(ps, ins, outs)}
+        HELD.append((rec, ps, ins, outs))
+        return rec
     except Timeout:
         return {"exc": "Timeout", "msg": ""}
     except BaseException as e:      # noqa
@@ -38,4 +47,12 @@ def run_one(src):
         signal.alarm(0)
 
 
-print(json.dumps([run_one(t) for t in json.load(sys.stdin)]))
+results = [run_one(t) for t in json.load(sys.stdin)]
+for rec, ps, ins, outs in HELD:
+    try:
+        late = render(ps, ins, outs)
+    except BaseException as e:      # noqa
+        late = {"exc": type(e).__name__}
+    if late != rec["sig"]:
+        rec["sig_after_later_calls"] = late
+print(json.dumps(results))
